@@ -32,7 +32,7 @@ def check(repo: Repo, R) -> None:
     # slice directly on a signal) is refused by the exporter rather than written as a forward range
     from . import c02 as _c02
     from . import shared as _sh
-    R.run(c01.slice_resolution, repo, _sh.Retag(R, lambda r, k: "C03.9-resolution-keeps-bit-sequence" if any(x in k for x in ("concat-order", "::tail-", "flat-case")) else None,
+    R.run(c01.slice_resolution, repo, _sh.Retag(R, lambda r, k: "C03.9-resolution-keeps-bit-sequence" if any(x in k for x in ("concat-order", "::tail-", "flat-case", "_resolve_rest", "leading-slice-listed")) else None,
                                                "flattening a nested concatenation permutes its parts: Concat(Concat(a, b), c) is exported as c, a, b (same width, nothing notices)"))
     R.run(_c02.export_slice_guards, repo, _sh.Retag(R, lambda r: "C03.9-resolution-keeps-bit-sequence",
                                                    "a reversed slice the resolver left on its signal (`a[2:0:-1]`) is exported as the ascending range a[1],a[2]: the selected bits are silently reversed"),
